@@ -164,6 +164,17 @@ CHECKS['C10'] = dict(
     note='Partial: _reset is a stub raising what the real one raises; convergence over repository states and independence from '
          'earlier jobs beyond option defaults are not decided.',
     design='3/C10', technique=TECH)
+CHECKS['C15'] = dict(
+    text='The real commands._reset (reset and force_reset) with get_integration_branches, get_commit_diff, Commit.parents/author, '
+         'Branch.remove and push runs on an explicit-DAG symbolic repository: every commit's parents and author flag and all ref '
+         'tips are symbolic, git log A..B is decided commit by commit. z3 decides per path: reset refuses iff the integration branch '
+         'holds manual work (least-fixpoint oracle unrolled in z3, contributor merge commits count), a refusing reset touches '
+         'nothing, a completing one deletes exactly this PR's integration branches and declines exactly its integration PRs. '
+         'Bounded: 4 commits (thorough 5), one integration branch.',
+    note='Partial/bounded. Assumes git log lists children before parents and that the robot only authors merge commits. Sampled '
+         'path witnesses and every counterexample are rebuilt as real repositories (real authors, parents) and run through the '
+         'real code with /usr/bin/git.',
+    design='3/C15', technique=TECH_GIT)
 CHECKS['C19'] = dict(
     text='(b) the real create_integration_pull_requests / get_or_create_pull_request / get_pull_request_from_list as an '
          'inductive step on a host with up to 2 (thorough 3) pull requests whose source, destination and status are symbolic: '
@@ -216,7 +227,7 @@ def main():
         engines=[
             dict(name='rx2z3', path='rx2z3/', serves_properties=[p for p in sorted(CHECKS) if CHECKS[p].get('engine') == 'rx2z3'],
                  kind_free_text='sre parse tree -> z3 regular expressions; language queries'),
-            dict(name='symgit', path='symgit/', serves_properties=['C01', 'C02', 'C03', 'C05', 'C08', 'C19', 'C20'],
+            dict(name='symgit', path='symgit/', serves_properties=['C01', 'C02', 'C03', 'C05', 'C08', 'C15', 'C19', 'C20'],
                  kind_free_text='nondeterministic model of the git binary (closure bit-vectors) + real-git replayer'),
             dict(name='symx', path='symx/', serves_properties=[p for p in sorted(CHECKS) if CHECKS[p].get('engine', 'symx') == 'symx'],
                  kind_free_text='forking symbolic executor for real Python function objects on z3 proxies'),
